@@ -330,3 +330,41 @@ Fixpoint first_v_sync (v : nat) (evs : list event) : bool :=
 Definition video_tracks (c : cfg) : list nat :=
   filter (fun t => match nth_error c.(c_tracks) t with Some tc => tc.(tc_video) | None => false end)
          (seq 0 (length c.(c_tracks))).
+
+(* ---- the true duration of a segment file whose tracks interleave in any order (b5-c27) ----
+   The media in a file ends where the sample that ends LAST ends - not where the sample written last ends: with
+   several tracks (audio ahead of video, a sparse track with long samples) the last sample handed to
+   formatFMP4Segment.write before the close may end earlier than a sample of another track written before it. *)
+Definition media_end (start : Z) (l : list wsmp) : Z := fold_left Z.max (map w_end l) start.
+Definition true_duration (f : segfile) : Z := media_end f.(f_sdts) (file_samples f) - f.(f_sdts).
+(* the same, read track by track: the end of the last sample of every track *)
+Definition track_ends (t : nat) (l : list wsmp) : list Z := map w_end (filter (fun w => Nat.eqb w.(w_trk) t) l).
+Definition tracks_end (n : nat) (start : Z) (l : list wsmp) : Z :=
+  fold_left Z.max (map (fun t => last (track_ends t l) start) (seq 0 n)) start.
+Fixpoint nondecr (l : list Z) : bool :=
+  match l with
+  | a :: r => match r with b :: _ => (a <=? b) && nondecr r | [] => true end
+  | [] => true
+  end.
+(* what the duration of the sample written last would give (the wrong notion; used by the refutation) *)
+Definition last_written_end (start : Z) (l : list wsmp) : Z := last (map w_end l) start.
+
+(* the duration check on a log: cur = (start, running maximum of the sample ends) of the open file; every SClose
+   must carry (maximum - start) *)
+Definition dstep (cur : option (Z * Z)) (o : sop) : option (Z * Z) :=
+  match o with
+  | SCreate _ s _ => Some (s, s)
+  | SPart _ p => option_map (fun c => (fst c, media_end (snd c) p.(o_smps))) cur
+  | SClose _ _ => None
+  end.
+Definition dstate (cur : option (Z * Z)) (l : list sop) : option (Z * Z) := fold_left dstep l cur.
+(* boolean form of the exact check *)
+Fixpoint dur_scan (cur : option (Z * Z)) (l : list sop) : bool :=
+  match l with
+  | [] => true
+  | o :: r =>
+      match o with
+      | SClose _ d => match cur with Some (s, e) => d =? e - s | None => false end
+      | _ => true
+      end && dur_scan (dstep cur o) r
+  end.
